@@ -205,6 +205,12 @@ theorem returns_restart_on_done (s : VN α) (o : Batch α) (r : List α) (d : Li
   | none => simp [h] at hx
   | some y => simp [h] at hx; exact hx.symm
 
+/-- **The restart does not look at the infos**: whatever `terminal_observation`s the inner VecEnv supplies (none,
+some, all), `step_wait` leaves the same state — statistics, accumulators, raw values. In particular an inner
+VecEnv that auto-resets without reporting terminal observations still restarts the accumulators on `done`. -/
+theorem returns_restart_independent_of_info (s : VN α) (o : Batch α) (r : List α) (d : List Bool)
+    (t t' : List (Option (Batch α))) : (s.stepWait o r d t).1 = (s.stepWait o r d t').1 := rfl
+
 /-- … an environment that goes on, in training mode, has `R·γ + r` … -/
 theorem returns_step_recursion (s : VN α) (o : Batch α) (r : List α) (d : List Bool) (t : List (Option (Batch α)))
     (e : ℕ) (htr : s.training = true) (hd : d[e]? = some false) (R x : α) (hR : s.returns[e]? = some R)
